@@ -151,9 +151,10 @@ def _orientation(env, node, rows, orient):
         if leaf.kind not in POLY:
             continue
         o = orient if (orient and node.a is None) else "pos"
-        for prm in rows:
+        for ri, prm in enumerate(rows):
             det = leaf.sh.oset._frame(prm)[3]
-            env.assume(L.gt(det, 0) if o in ("pos", "ccw") else L.lt(det, 0))
+            oo = ("pos" if ri % 2 == 0 else "neg") if o == "mixed" else o  # mixed: parameter rows of both orientations
+            env.assume(L.gt(det, 0) if oo in ("pos", "ccw") else L.lt(det, 0))
 
 
 def _needs_bound(expr):
@@ -198,9 +199,9 @@ def _poly_operand(expr):
 # ---- end to end: real sampler -> real normal ---------------------------------------------------
 
 
-def sampled_case(expr, method, n, k, orient=None, side=None, link_only=False, dep=None, **kw):
+def sampled_case(expr, method, n, k, orient=None, side=None, link_only=False, dep=None, called=False, **kw):
     name = expr_name(expr) + ("[t]" if dep else "")
-    tag = name + ("/" + orient if orient else "") + ("/" + side if side else "")
+    tag = name + ("/" + orient if orient else "") + ("/" + side if side else "") + ("/called" if called else "")
     cname = "%s/%s/%s/n%d/k%d" % ("sampled" if link_only else "normal", tag, method, n, k)
 
     def body(env):
@@ -210,6 +211,8 @@ def sampled_case(expr, method, n, k, orient=None, side=None, link_only=False, de
         _normalise(env, expr, node, rows)
         _orientation(env, node, rows, orient)
         bd = sh.dom.boundary if side is None else getattr(sh.dom, "boundary_" + side)
+        if called:  # the boundary object after a partial evaluation (here of a variable it does not depend on),
+            bd = bd(t=env.tensor("v_t", ()))  # as ProductDomain.__call__ and PlotSampler do with every domain
         f = bd.sample_random_uniform if method == "random" else bd.sample_grid
         pts = f(n=n, params=P)
         nrm = None if link_only else bd.normal(pts, P)
@@ -378,7 +381,8 @@ def generic_case(expr, leaf_idx, piece, k=0, orient=None, dep=None, premises_onl
             yield "generic_point_on_piece[row%d]" % i, N.on_some_piece(o["leaf"].oset, p, prm, L)
             yield "unit[row%d]" % i, N.unit(nu, L, _tol(L))
             zf = _zone(L, o["aux"]["t"][i], zone) if zone else None
-            for cn, conds, prem, concl in _generic_claims(o, i, p, nu, prm, L, other):
+            skip = other if orient != "mixed" else ("cw" if i % 2 == 0 else "ccw")
+            for cn, conds, prem, concl in _generic_claims(o, i, p, nu, prm, L, skip):
                 if zf is not None and _is_t_form(prem, o):
                     rel = _relation(L, zf, prem)
                     if rel == "never":  # premise excluded by the zone this case assumes
@@ -488,6 +492,8 @@ def cases(tier):
     for side in ("left", "right"):
         cs.append(sampled_case(I, "random", 2, 0, side=side))
         cs.append(sampled_case(I, "grid", 1, 0, side=side))
+        cs.append(sampled_case(I, "grid", 1, 0, side=side, called=True))
+    cs.append(sampled_case(I, "random", 2, 0, called=True))
     # Circle
     for n in (1, 2):
         cs.append(sampled_case(C, "random", n, 0))
@@ -508,6 +514,9 @@ def cases(tier):
             cs.append(sampled_case(e, "random", 2, 0, link_only=True, split=("minmax",), max_paths=96))
             for n in (4, 5):
                 cs.append(sampled_case(e, "grid", n, 0, link_only=True, split=("minmax",), max_paths=96))
+    # parameter rows of BOTH vertex orientations in one call (the orientation correction is per row)
+    for pc, z in (("e0", "mid"), ("e2", "v0")) if quick else [(pc, z) for pc in pieces("Parallelogram") for z in ("v0", "mid", "z1")]:
+        cs.append(generic_case(PG, 0, pc, 2, orient="mixed", zone=z, dep="t", budget_s=140 if quick else 300))
     # composition layer on arbitrary operands
     for op in "+-&":
         cs.append(abstract_case(op))
